@@ -1,5 +1,12 @@
 package main
 
+import (
+	"fmt"
+	"go/ast"
+	"go/token"
+	"go/types"
+)
+
 // Structural (engine-decided) checks: goroutine ledger etc. Filled in later.
 
 func (e *Engine) RunStructural(names []string) *Unit {
@@ -9,6 +16,8 @@ func (e *Engine) RunStructural(names []string) *Unit {
 	u := e.newUnit("structural")
 	for _, n := range names {
 		switch n {
+		case "immutable-fields":
+			e.checkImmutableFields(u)
 		default:
 			u.unsupported = append(u.unsupported, "unknown structural check "+n)
 		}
@@ -19,3 +28,80 @@ func (e *Engine) RunStructural(names []string) *Unit {
 // TryReplay turns a failed obligation into a runnable replay when a driver
 // exists; returns the replay path or "".
 func (e *Engine) TryReplay(id string, ob *Obligation, dir string) string { return "" }
+
+
+// checkImmutableFields: a field declared `immutable field T.f` may only be
+// assigned in functions whose contract says `constructor`, or in composite
+// literals. One static obligation per assignment found.
+func (e *Engine) checkImmutableFields(u *Unit) {
+	if len(e.specs.ImmutableFields) == 0 {
+		return
+	}
+	for _, p := range e.pkgs {
+		for _, f := range p.Syntax {
+			for _, decl := range f.Decls {
+				fd, ok := decl.(*ast.FuncDecl)
+				if !ok || fd.Body == nil {
+					continue
+				}
+				obj, _ := p.TypesInfo.Defs[fd.Name].(*types.Func)
+				isCtor := false
+				if obj != nil {
+					if fs := e.specs.Funcs[obj.FullName()]; fs != nil {
+						_, isCtor = fs.Extra["constructor"]
+					}
+				}
+				check := func(lhs ast.Expr) {
+					se, ok := ast.Unparen(lhs).(*ast.SelectorExpr)
+					if !ok {
+						return
+					}
+					sel := p.TypesInfo.Selections[se]
+					if sel == nil {
+						return
+					}
+					fv, ok := sel.Obj().(*types.Var)
+					if !ok || !fv.IsField() {
+						return
+					}
+					recv := derefType(sel.Recv())
+					n, ok := unalias(recv).(*types.Named)
+					if !ok || n.Obj().Pkg() == nil {
+						return
+					}
+					key := n.Obj().Pkg().Path() + "." + n.Obj().Name() + "." + fv.Name()
+					if !e.specs.ImmutableFields[key] {
+						return
+					}
+					u.kindN["immutable"]++
+					ob := &Obligation{Name: fmt.Sprintf("structural#immutable.%s.%d", n.Obj().Name()+"."+fv.Name(), u.kindN["immutable"]), Unit: u.name, Kind: "immutable", Pos: u.pos(lhs.Pos()),
+						Desc: "immutable field " + key + " assigned only in constructors (" + fd.Name.Name + ")", Static: true, StaticOK: isCtor}
+					if isCtor {
+						ob.Status = "static"
+					} else {
+						ob.Status = "failed-static"
+					}
+					u.obls = append(u.obls, ob)
+				}
+				ast.Inspect(fd.Body, func(x ast.Node) bool {
+					switch s := x.(type) {
+					case *ast.AssignStmt:
+						for _, l := range s.Lhs {
+							check(l)
+						}
+					case *ast.IncDecStmt:
+						check(s.X)
+					case *ast.UnaryExpr:
+						if s.Op == token.AND {
+							check(s.X)
+						}
+					}
+					return true
+				})
+			}
+		}
+	}
+	// at least one obligation so that the check is never empty
+	u.kindN["immutable"]++
+	u.obls = append(u.obls, &Obligation{Name: fmt.Sprintf("structural#immutable.scan.%d", u.kindN["immutable"]), Unit: u.name, Kind: "immutable", Desc: fmt.Sprintf("scanned %d packages for writes to %d immutable fields", len(e.pkgs), len(e.specs.ImmutableFields)), Static: true, StaticOK: true, Status: "static"})
+}
